@@ -31,9 +31,11 @@ type canonPlan struct {
 
 func canonCmd(out *cq.Out, seed uint64, tier string) {
 	rng := cq.NewRng(seed)
+	// every balloon instance allocates the 1.1 GB batch cache of the hyper tree: the quick tier keeps their number small
 	ns := []int{1, 2, 5, 9, 17, 30}
+	nplans := 3
 	if tier == "thorough" {
-		ns = append(ns, 33, 64, 100, 130)
+		ns = []int{1, 2, 5, 9, 17, 30, 33, 64, 100, 130}
 	}
 	var cases []string
 	for ci, n := range ns {
@@ -56,13 +58,13 @@ func canonCmd(out *cq.Out, seed uint64, tier string) {
 			single.sizes = append(single.sizes, 0)
 		}
 		plans = append(plans, single)
-		for p := 0; p < 3; p++ {
+		for p := 0; p < nplans; p++ {
 			pl := canonPlan{name: fmt.Sprintf("partition%d", p), restarts: map[int]bool{}}
 			left := n
 			for left > 0 {
 				k := 1 + rng.Intn(8)
-				if p == 2 {
-					k = 1 + rng.Intn(n) // a few large bulks
+				if p == nplans-1 && rng.Intn(2) == 0 {
+					k = 1 + rng.Intn(n) // large bulks
 				}
 				if k > left {
 					k = left
